@@ -104,20 +104,29 @@ Proof.
       * inversion H; subst. eapply Hev; eassumption.
 Qed.
 
-Lemma with_binds_R : forall l s s', with_binds ev s l = Ok s' -> R s s'.
+Lemma map_eval_pairs_env : forall l s vs s', map_eval_pairs ev s l = Ok (vs, s') -> s_env s' = s_env s.
 Proof.
-  induction l as [|[x e] r IH]; intros s s' H; cbn [with_binds] in H.
-  - inversion H; apply R_refl.
-  - bstep H p1 E1. destruct p1 as [v s1]. eapply R_trans; [|eapply IH; eassumption].
-    eapply R_trans; [apply R_of_eq; eapply Hev; eassumption|apply store_R].
+  induction l as [|[k x] r IH]; intros s vs s' H; cbn [map_eval_pairs] in H.
+  - inversion H; reflexivity.
+  - bstep H p1 E1. destruct p1 as [kv s1]. bstep H p2 E2. destruct p2 as [xv s2].
+    bstep H p3 E3. destruct p3 as [vs' s3]. inversion H; subst.
+    rewrite (IH _ _ _ E3). rewrite (Hev _ _ _ _ E2). eapply Hev; eassumption.
 Qed.
 
 Lemma bind_target_R tgt s item s' : bind_target tgt s item = Ok s' -> R s s'.
 Proof.
   unfold bind_target. destruct tgt as [x|x y].
   - intros H; inversion H; apply store_R.
-  - destruct item; try discriminate. destruct l as [|a [|b [|? ?]]]; try discriminate.
+  - destruct (unpack_items item) as [[|a [|b [|? ?]]]|]; try discriminate.
     intros H; inversion H. eapply R_trans; apply store_R.
+Qed.
+
+Lemma with_binds_R : forall l s s', with_binds ev s l = Ok s' -> R s s'.
+Proof.
+  induction l as [|[x e] r IH]; intros s s' H; cbn [with_binds] in H.
+  - inversion H; apply R_refl.
+  - bstep H p1 E1. destruct p1 as [v s1]. bstep H s2 E2. eapply R_trans; [|eapply IH; eassumption].
+    eapply R_trans; [apply R_of_eq; eapply Hev; eassumption|eapply bind_target_R; eassumption].
 Qed.
 
 Lemma filter_items_env m tgt fe : forall l s r s', filter_items m ev tgt fe s l = Ok (r, s') -> s_env s' = s_env s.
@@ -175,6 +184,7 @@ Proof.
       * destruct l; inversion H; reflexivity.
       * destruct (lookup c s x) as [v0 s1] eqn:E. inversion H; subst. eapply lookup_env; eassumption.
       * bstep H p1 E1. destruct p1 as [vs s1]. inversion H; subst. eapply map_eval_env; [apply He|eassumption].
+      * bstep H p1 E1. destruct p1 as [vs s1]. inversion H; subst. eapply map_eval_pairs_env; [apply He|eassumption].
       * bstep H p1 E1. destruct p1 as [v0 s1]. destruct v0; inversion H; subst. eapply He; eassumption.
       * bstep H p1 E1. destruct p1 as [v0 s1]. bstep H b E2. inversion H; subst. eapply He; eassumption.
       * bstep H p1 E1. destruct p1 as [x s1]. bstep H p2 E2. destruct p2 as [y s2]. bstep H u E3. bstep H r E4.
@@ -193,12 +203,12 @@ Proof.
            ++ inversion H; subst. eapply He; eassumption.
       * bstep H p1 E1. destruct p1 as [x s1]. bstep H p2 E2. destruct p2 as [k s2].
         assert (H2 : s_env s2 = s_env s) by (rewrite (He _ _ _ _ _ E2); eapply He; eassumption).
-        destruct (match x, k with VList l, VInt z => idx_list l z | _, _ => None end).
+        destruct (get_item_opt x k).
         -- inversion H; subst; assumption.
         -- bstep H u E3. inversion H; subst; assumption.
       * bstep H p1 E1. destruct p1 as [x s1].
         assert (H1 : s_env s1 = s_env s) by (eapply He; eassumption).
-        destruct (match x with VLoop i n => loop_attr i n a | _ => None end).
+        destruct (get_attr_opt x a).
         -- inversion H; subst; assumption.
         -- bstep H u E3. inversion H; subst; assumption.
       * bstep H p1 E1. destruct p1 as [x s1]. bstep H p2 E2. destruct p2 as [vs s2]. bstep H r E3. inversion H; subst.
@@ -238,8 +248,8 @@ Proof.
         -- eapply R_trans; [apply R_of_eq; eassumption|eapply IHl; eassumption].
         -- inversion H; subst. apply R_of_eq; assumption.
         -- inversion H; subst. apply R_of_eq; assumption.
-      * bstep H p1 E1. destruct p1 as [v s1]. inversion H; subst.
-        eapply R_trans; [apply R_of_eq; eapply He; eassumption|apply store_R].
+      * bstep H p1 E1. destruct p1 as [v s1]. bstep H s2 E2. inversion H; subst.
+        eapply R_trans; [apply R_of_eq; eapply He; eassumption|eapply bind_target_R; eassumption].
       * bstep H p1 E1. destruct p1 as [[sg0 txt] s1]. bstep E1 p2 E2. destruct p2 as [sg1 s1'].
         inversion E1; subst.
         assert (HR : R s (with_out s1' (s_out s))).
@@ -322,21 +332,58 @@ Proof.
   destruct items; inversion H; subst; assumption.
 Qed.
 
+Lemma assoc_set_same {A} x (v : A) l : assoc x (assoc_set x v l) = Some v.
+Proof.
+  induction l as [|[k w] l IH]; cbn; [rewrite Z.eqb_refl; reflexivity|].
+  destruct (x =? k) eqn:E; cbn; [rewrite Z.eqb_refl; reflexivity|rewrite E; exact IH].
+Qed.
+
+Lemma assoc_set_other {A} x y (v : A) l : x <> y -> assoc x (assoc_set y v l) = assoc x l.
+Proof.
+  intros Hne. assert (Hxy : (x =? y) = false) by (apply Z.eqb_neq; exact Hne).
+  induction l as [|[k w] l IH]; cbn; [rewrite Hxy; reflexivity|].
+  destruct (y =? k) eqn:E; cbn.
+  - apply Z.eqb_eq in E. subst k. rewrite Hxy. reflexivity.
+  - destruct (x =? k); [reflexivity|exact IH].
+Qed.
+
 Lemma set_persists_proof c fuel esc s x e sg s' : s_env s <> [] ->
-  exec c fuel esc s (SSet x e) = Ok (sg, s') ->
+  exec c fuel esc s (SSet (TVar x) e) = Ok (sg, s') ->
   exists v s1 f r, eval c (pred fuel) esc s e = Ok (v, s1) /\ s_env s' = f :: r /\ assoc x (f_locals f) = Some v
                    /\ r = tl (s_env s).
 Proof.
   intros Hne H. destruct fuel as [|fuel]; [discriminate|]. cbn [exec] in H.
-  bstep H p1 E1. destruct p1 as [v s1]. inversion H; subst. cbn [pred].
+  bstep H p1 E1. destruct p1 as [v s1]. cbn [bind_target bind] in H. inversion H; subst. cbn [pred].
   pose proof (eval_env_proof _ _ _ _ _ _ _ E1) as He.
   unfold store. destruct (s_env s1) as [|f r] eqn:Ee; [congruence|].
   exists v, s1. eexists. exists r. cbn [s_env f_locals].
   split; [eassumption|]. split; [reflexivity|]. split.
-  - clear. induction (f_locals f) as [|[k w] l IH]; cbn; [rewrite Z.eqb_refl; reflexivity|].
-    destruct (x =? k) eqn:E; cbn; [rewrite Z.eqb_refl; reflexivity|rewrite E; exact IH].
+  - apply assoc_set_same.
   - rewrite <- He. reflexivity.
 Qed.
+
+(* unpacking assignment: the right-hand side is evaluated completely, in the state before the
+   statement, and only then are the two targets bound - to the two items of its value *)
+Lemma set_pair_persists_proof c fuel esc s x y e sg s' : s_env s <> [] ->
+  exec c fuel esc s (SSet (TPair x y) e) = Ok (sg, s') ->
+  exists v s1 a b f r, eval c (pred fuel) esc s e = Ok (v, s1) /\ unpack_items v = Some [a; b] /\
+                   s_env s' = f :: r /\ assoc y (f_locals f) = Some b /\ (x <> y -> assoc x (f_locals f) = Some a)
+                   /\ r = tl (s_env s).
+Proof.
+  intros Hne H. destruct fuel as [|fuel]; [discriminate|]. cbn [exec] in H.
+  bstep H p1 E1. destruct p1 as [v s1]. bstep H s2 E2. inversion H; subst. cbn [pred].
+  pose proof (eval_env_proof _ _ _ _ _ _ _ E1) as He.
+  cbn [bind_target] in E2. destruct (unpack_items v) as [[|a [|b [|? ?]]]|] eqn:Eu; try discriminate.
+  inversion E2; subst. clear E2.
+  unfold store at 1. cbn [s_env]. unfold store. destruct (s_env s1) as [|f r] eqn:Ee; [congruence|].
+  cbn [s_env f_locals f_loop f_closure f_closure_ctx f_base].
+  exists v, s1, a, b. eexists. exists r. cbn [f_locals].
+  split; [eassumption|]. split; [exact Eu|]. split; [reflexivity|]. cbn [f_locals]. split; [apply assoc_set_same|]. split.
+  - intros Hxy. rewrite assoc_set_other by exact Hxy. apply assoc_set_same.
+  - rewrite <- He. reflexivity.
+Qed.
+
+
 
 Lemma if_in_place_proof c fuel esc s cnd body els v s1 :
   eval c fuel esc s cnd = Ok (v, s1) -> u_is_true (c_mode c) v = Ok true ->
@@ -347,3 +394,63 @@ Proof.
     with (if_arms (c_mode c) (eval c fuel esc) (exec_list c fuel esc) els s [(cnd, body)]).
   cbn [if_arms]. rewrite E. cbn [bind]. rewrite T. reflexivity.
 Qed.
+
+(* ---- maps: the association list behind VMap (ValueMap = BTreeMap<Value, Value>) ---- *)
+Lemma list_ltb_irrefl x : list_ltb x x = false.
+Proof. induction x as [|a x IH]; cbn [list_ltb]; [reflexivity|]. rewrite Z.ltb_irrefl. exact IH. Qed.
+
+Lemma value_ltb_irrefl k : value_ltb k k = false.
+Proof.
+  destruct k; cbn [value_ltb kind_rank]; try apply Z.ltb_irrefl.
+  - destruct b; reflexivity.
+  - apply list_ltb_irrefl.
+Qed.
+
+Lemma key_eqb_refl k : key_eqb k k = true.
+Proof. unfold key_eqb. rewrite value_ltb_irrefl. reflexivity. Qed.
+
+(* a key that was just inserted is found, with the inserted value: of duplicate keys in a literal the last wins *)
+Lemma map_get_insert_proof k v m : map_get k (map_insert k v m) = Some v.
+Proof.
+  induction m as [|[k' v'] r IH]; cbn [map_insert map_get].
+  - rewrite key_eqb_refl. reflexivity.
+  - destruct (value_ltb k k') eqn:E1.
+    + cbn [map_get]. rewrite key_eqb_refl. reflexivity.
+    + destruct (value_ltb k' k) eqn:E2; cbn [map_get]; unfold key_eqb; rewrite E1, E2; cbn [negb andb]; [exact IH|reflexivity].
+Qed.
+
+(* the entries stay in strictly ascending key order (so no two keys are equal in that order) *)
+Fixpoint keys_ascending (m : list (value * value)) : Prop :=
+  match m with
+  | [] => True
+  | (k, _) :: r => match r with [] => True | (k', _) :: _ => value_ltb k k' = true end /\ keys_ascending r
+  end.
+
+Lemma map_insert_ascending k v m : keys_ascending m -> keys_ascending (map_insert k v m).
+Proof.
+  induction m as [|[k' v'] r IH]; intros Hm; cbn [map_insert].
+  - cbn. auto.
+  - destruct (value_ltb k k') eqn:E1.
+    + cbn [keys_ascending]. split; [exact E1|exact Hm].
+    + destruct (value_ltb k' k) eqn:E2.
+      * cbn [keys_ascending] in Hm |- *. destruct Hm as [Hh Hr]. specialize (IH Hr). split; [|exact IH].
+        destruct r as [|[k2 v2] r2]; cbn [map_insert].
+        -- exact E2.
+        -- destruct (value_ltb k k2); [exact E2|]. destruct (value_ltb k2 k); exact Hh.
+      * cbn [keys_ascending] in Hm |- *. exact Hm.
+Qed.
+
+Lemma map_of_pairs_ascending_proof ps : keys_ascending (map_of_pairs ps).
+Proof.
+  unfold map_of_pairs. assert (H : keys_ascending []) by exact I. revert H. generalize (@nil (value * value)).
+  induction ps as [|[k v] r IH]; intros m Hm; cbn [fold_left]; [exact Hm|]. apply IH. apply map_insert_ascending. exact Hm.
+Qed.
+
+(* iterating a map = iterating its keys; `in` looks a key up; truthiness = non-emptiness *)
+Lemma map_semantics_proof kvs item :
+  contains (VMap kvs) item = Ok (match map_get item kvs with Some _ => true | None => false end) /\
+  truthy (VMap kvs) = negb (Nat.eqb (length kvs) 0) /\
+  unpack_items (VMap kvs) = Some (map fst kvs) /\
+  (forall m, do_filter m false F_length (VMap kvs) [] = Ok (VInt (lenZ kvs))) /\
+  (forall m, do_filter m false F_list (VMap kvs) [] = Ok (VList (map fst kvs))).
+Proof. repeat split; destruct kvs; reflexivity. Qed.
